@@ -288,7 +288,7 @@ pub fn run(ctx: &Ctx, cov: &mut Cover) {
         }
     }
     if let Some(ik) = &r.input_key {
-        if simple_assets && recipient != ctx.sender {
+        if simple_assets && (recipient != ctx.sender || *ik != final_key) {
             cov.eval("C13", "b");
             let fall = Z::diff(ctx.view.pre(ik, ctx.sender), ctx.view.post(ik, ctx.sender));
             if fall != z(r.input) {
